@@ -210,7 +210,8 @@ func (f *memFile) Type() os.FileMode {
 }
 
 func (f *memFile) Info() (os.FileInfo, error) {
-	return f.Stat()
+	// A directory entry describes the file whether or not it is open.
+	return f, nil
 }
 
 func (f *memFile) Slice(start int64, end int64) ([]byte, error) {
